@@ -14,6 +14,7 @@ pure model reports *which* nodes it found.  `cfg` defaults to what the translato
 -/
 import Driver.Common
 import Model.Constraint
+import Model.EmitExact
 import Generated.Cons
 open Lean FV FV.Drv
 
@@ -41,6 +42,15 @@ def slcOf (j : Json) : Except String Slc := do
                              (← optNat (a[3]?.getD Json.null))
   | t => throw s!"bad slice tag {t}"
 
+def selPairOf (j : Json) : Except String SelPair := do
+  let a ← arrOf j
+  let sym ← (a[0]?.getD Json.null).getStr?
+  let direct ← (a[1]?.getD Json.null).getBool?
+  let items ← (match a[2]?.getD Json.null with
+    | .null => pure none
+    | x => do return some (← slcOf x))
+  return ⟨sym, direct, items⟩
+
 partial def searchOf (j : Json) : Except String Search := do
   let a ← arrOf j
   match ← tagOf a with
@@ -52,6 +62,9 @@ partial def searchOf (j : Json) : Except String Search := do
     return .item (← searchOf (a[1]?.getD Json.null)) sl
   | "star" => return .star (← searchOf (a[1]?.getD Json.null))
   | "len" => return .len (← searchOf (a[1]?.getD Json.null))
+  | "sel" =>
+    let ps ← (← arrOf (a[2]?.getD Json.null)).toList.mapM selPairOf
+    return .sel (← searchOf (a[1]?.getD Json.null)) ps
   | t => throw s!"bad search tag {t}"
 
 def refOf (j : Json) : Except String Ref := do
@@ -206,8 +219,31 @@ def jFit (f : Fit) : Json :=
   Json.mkObj [("solved", Json.num f.solved), ("total", Json.num f.total), ("success", Json.bool f.success),
               ("num", Json.num num), ("den", Json.num den), ("dist", Json.bool f.dist.isSome)]
 
+/-- a stub outcome: null (the call raised) | {"solved","total","success"} | {"values":[bool…],"success"} -/
+def outcomeOf (j : Json) : Except String (Option Fit) :=
+  match j with
+  | .null => pure none
+  | _ => do
+    let success ← j.getObjValAs? Bool "success"
+    match (j.getObjVal? "values").toOption with
+    | some vs =>
+      let bs ← (← vs.getArr?).toList.mapM (fun b => b.getBool?)
+      return some ⟨bs.countP id, bs.length, success, some bs⟩
+    | none =>
+      return some ⟨← j.getObjValAs? Nat "solved", ← j.getObjValAs? Nat "total", success, none⟩
+
+def jRat (q : Rat) : Json :=
+  Json.mkObj [("num", Json.str (toString q.num)), ("den", Json.str (toString q.den))]
+
+def handleEmit (j : Json) : Except String Json := do
+  let hard ← (← (← j.getObjVal? "hard").getArr?).toList.mapM outcomeOf
+  let rep ← (← (← j.getObjVal? "rep").getArr?).toList.mapM outcomeOf
+  let seen := (j.getObjValAs? Bool "seen").toOption.getD false
+  return Json.mkObj [("emit", Json.bool (emitsQ 1 hard rep seen)), ("fitness", jRat (fitnessQ hard rep))]
+
 def handle (j : Json) : Except String Json := do
   let op ← j.getObjValAs? String "op"
+  if op == "emit" then return ← handleEmit j
   let t0 ← treeOf (← j.getObjVal? "tree")
   if !asciiText t0 then throw "tree has a leaf that is not ASCII text (not modelled)"
   let t := label "" t0
